@@ -29,7 +29,13 @@ fn scratch() -> &'static Vec<PathBuf> {
         let base = std::env::temp_dir().join(format!("a10sim-{}", std::process::id()));
         let mut all: Vec<PathBuf> = (0..3)
             .map(|i| {
-                let d = base.join(format!("w{i}"));
+                // One of the directories has a name that is not UTF-8.
+                let d = if i == 2 {
+                    use std::os::unix::ffi::OsStrExt;
+                    base.join(std::ffi::OsStr::from_bytes(b"w2-caf\xe9"))
+                } else {
+                    base.join(format!("w{i}"))
+                };
                 std::fs::create_dir_all(&d).expect("scratch dir");
                 d
             })
@@ -93,7 +99,7 @@ fn draw_record(nwatches: i32) -> Record {
         0 | 1 => 0,
         2 => 255,
         3 => 1,
-        4 => 16,
+        4 => 16 * (1 + tape::choose(site::DATA, 3) as usize),
         5 => 15,
         _ => 1 + tape::choose(site::DATA, 40) as usize,
     };
@@ -102,7 +108,12 @@ fn draw_record(nwatches: i32) -> Record {
         .collect();
     // The kernel pads the name with NULs to a multiple of the header size
     // (at least one NUL); events without a name have len 0.
-    let pad = if name_len == 0 { 0 } else { (name_len + 1).div_ceil(16) * 16 - name_len };
+    let mut pad = if name_len == 0 { 0 } else { (name_len + 1).div_ceil(16) * 16 - name_len };
+    // Well-formed without any padding NUL as well: the name fills its field
+    // (the property's range is 0..15 padding NULs); records stay 16-aligned.
+    if name_len > 0 && name_len % 16 == 0 && tape::chance(site::DATA, 1, 2) {
+        pad = 0;
+    }
     Record {
         wd,
         mask,
